@@ -74,6 +74,10 @@ def disambiguate_identifiers(statements_a, statements_b,
 
     from pymbolic.imperative.analysis import get_all_used_identifiers
 
+    # both streams are traversed more than once
+    statements_a = list(statements_a)
+    statements_b = list(statements_b)
+
     id_a = get_all_used_identifiers(statements_a)
     id_b = get_all_used_identifiers(statements_b)
 
@@ -102,6 +106,9 @@ def disambiguate_identifiers(statements_a, statements_b,
 
 def disambiguate_and_fuse(statements_a, statements_b,
         should_disambiguate_name=None):
+    # the first stream is needed twice
+    statements_a = list(statements_a)
+
     statements_b, subst_b = disambiguate_identifiers(
             statements_a, statements_b,
             should_disambiguate_name)
